@@ -561,6 +561,11 @@ def _write(f, path):
 
 
 @task(namespace="__NS__")
+def keep(*objs):
+    return len(objs)
+
+
+@task(namespace="__NS__")
 def make(hid: int, shape: str, items: list, root: str):
     """Writes every output through File.open and returns the external values in the given shape."""
     CTL["count"] += 1
@@ -580,6 +585,9 @@ def make(hid: int, shape: str, items: list, root: str):
         return objs[0]
     if shape == "list":
         return [7] + objs
+    if shape == "partial":
+        # the external values travel inside a partially applied task (a Value that holds other values)
+        return keep.partial(*objs)
     return dict([("n", 7)] + [("k%d" % i, o) for i, o in enumerate(objs)])
 '''
 
@@ -617,6 +625,8 @@ def flatten(shape: str, result, nitems: int) -> list:
         return [result]
     if shape == "list":
         return list(result[1:])
+    if shape == "partial":
+        return list(result.args)
     return [result["k%d" % i] for i in range(nitems)]
 
 
